@@ -214,6 +214,10 @@ def canon(m):
         if sorted(idx) != list(range(len(idx))):
             raise Violation('positional-gaps', 'node %s has positional parent indices %s' % (n, sorted(idx)))
         pos = [v for _, v in sorted(pos, key=lambda t: t[0])]
+        # the public accessor must agree with the edges: positional parents in declared order
+        gp = [({'const': sn.nodes[q]['attr_dict']['_output'][1]} if q.startswith('_') else q) for q in m.get_parents(n)]
+        if gp != pos:
+            raise Violation('get-parents-order', 'get_parents(%s) returns %s, positional parents in declared order are %s' % (n, gp, pos))
         op = st.get('_operation')
         if 'distribution' in st:
             opid = st['distribution'].opid
